@@ -362,6 +362,7 @@ theorem leaf_sem (row : Row) (f op : Str) (a : Arg) (l : Leaf) (vs : List Value)
           | null => simp at h; subst h; simp [leafWhere, bindAll] at hb; subst hb; exact sem_null row f false
           | int i => simp at h; subst h; simp [leafWhere, bindAll, pure, Except.pure, bind, Except.bind] at hb; subst hb; exact sem_cmp row f .eq _
           | text t => simp at h; subst h; simp [leafWhere, bindAll, pure, Except.pure, bind, Except.bind] at hb; subst hb; exact sem_cmp row f .eq _
+          | blob t => simp at h; subst h; simp [leafWhere, bindAll, pure, Except.pure, bind, Except.bind] at hb; subst hb; exact sem_cmp row f .eq _
         | list ws => simp at h; subst h; exact sem_inl row f false ws vs hb
         | set ws => simp at h; subst h; simp [leafWhere, bindAll] at hb
       | ne =>
@@ -371,6 +372,7 @@ theorem leaf_sem (row : Row) (f op : Str) (a : Arg) (l : Leaf) (vs : List Value)
           | null => simp at h; subst h; simp [leafWhere, bindAll] at hb; subst hb; exact sem_null row f true
           | int i => simp at h; subst h; simp [leafWhere, bindAll, pure, Except.pure, bind, Except.bind] at hb; subst hb; exact sem_cmp row f .ne _
           | text t => simp at h; subst h; simp [leafWhere, bindAll, pure, Except.pure, bind, Except.bind] at hb; subst hb; exact sem_cmp row f .ne _
+          | blob t => simp at h; subst h; simp [leafWhere, bindAll, pure, Except.pure, bind, Except.bind] at hb; subst hb; exact sem_cmp row f .ne _
         | list ws => simp at h; subst h; exact sem_inl row f true ws vs hb
         | set ws => simp at h; subst h; simp [leafWhere, bindAll] at hb
       | gt =>
@@ -409,6 +411,7 @@ theorem leaf_sem (row : Row) (f op : Str) (a : Arg) (l : Leaf) (vs : List Value)
         | null => simp at h; subst h; simp [leafWhere, bindAll] at hb; subst hb; exact sem_null row f neg
         | int i => simp at h
         | text t => simp at h
+        | blob t => simp at h
       | list ws => simp at h
       | set ws => simp at h
     | like neg =>
@@ -417,6 +420,7 @@ theorem leaf_sem (row : Row) (f op : Str) (a : Arg) (l : Leaf) (vs : List Value)
         cases v with
         | null => simp at h
         | int i => simp at h
+        | blob t => simp at h
         | text t =>
           simp at h; subst h
           simp [leafWhere, bindAll, pure, Except.pure, bind, Except.bind] at hb; subst hb
